@@ -28,6 +28,8 @@ ProgList1 == (1 :> <<Ins(1, 11), Rem(2)>>) @@ (2 :> <<Ins(2, 21), Get(1)>>) @@ (
 ProgList2 == (1 :> <<TIns(1, 11), Inc(1, 12)>>) @@ (2 :> <<Ins2(1, 21), CNone(1)>>) @@ (3 :> <<Inc(1, 31), Has(1)>>)
 ProgList3 == (1 :> <<Ins(1, 11), Ins(2, 12), Rem(1)>>) @@ (2 :> <<RemE(2), Ins(3, 23), Get(2)>>)
 \* ---- lazy initialisation race
+\* two threads racing the lazy initialisation (the loser spins in init_table until the winner has stored the table): liveness
+ProgInit2 == (1 :> <<Ins(1, 11)>>) @@ (2 :> <<TIns(2, 21), Get(1)>>)
 ProgInit == (1 :> <<Ins(1, 11)>>) @@ (2 :> <<TIns(1, 21), Get(1)>>) @@ (3 :> <<Inc(2, 31), Ins(2, 32)>>)
 \* ---- one resize 2 -> 4 with two writers crossing the threshold and a reader
 ProgRz1 == (1 :> <<Ins(2, 21)>>) @@ (2 :> <<Ins(3, 31)>>) @@ (3 :> <<Get(1), Get(3)>>)
